@@ -49,13 +49,13 @@ func (r Root) String() string {
 
 // Write is one instruction that modifies memory not allocated by its own function.
 type Write struct {
-	Fn     *ssa.Function // function containing the instruction
-	Pos    token.Pos
-	Root   Root
-	Field  *types.Var // innermost struct field addressed, if the write is to X.f or to a map loaded from X.f
-	Kind   string     // store, map-update, delete, append, extern:<callee>
-	Via    []string   // call chain from the summarised function down to Fn
-	Instr  ssa.Instruction
+	Fn    *ssa.Function // function containing the instruction
+	Pos   token.Pos
+	Root  Root
+	Field *types.Var // innermost struct field addressed, if the write is to X.f or to a map loaded from X.f
+	Kind  string     // store, map-update, delete, append, extern:<callee>
+	Via   []string   // call chain from the summarised function down to Fn
+	Instr ssa.Instruction
 }
 
 type CallSite struct {
@@ -86,24 +86,24 @@ type ExternEffect struct {
 // Externs is the allow-list of calls out of the module, with their stated
 // effects on memory the caller can see. Anything not listed is UNDECIDED.
 var Externs = map[string]ExternEffect{
-	"fmt.Sprintf":                 {Fresh: true, Note: "formats; calls String() of arguments (module Stringers are themselves checked)"},
-	"fmt.Sprint":                  {Fresh: true},
-	"fmt.Errorf":                  {Fresh: true},
-	"errors.New":                  {Fresh: true},
-	"strings.Split":               {Fresh: true},
-	"strings.Join":                {Fresh: true},
-	"(*strings.Builder).WriteString": {WritesParams: []int{0}},
-	"(*strings.Builder).String":   {Fresh: true},
-	"(*bytes.Buffer).String":      {Fresh: true},
-	"(*bytes.Buffer).WriteString": {WritesParams: []int{0}},
-	"strconv.FormatFloat":         {Fresh: true},
-	"math.Pow":                    {Fresh: true},
-	"math.Min":                    {Fresh: true},
-	"math.Max":                    {Fresh: true},
-	"math.Round":                  {Fresh: true},
-	"math.Floor":                  {Fresh: true},
-	"math.Ceil":                   {Fresh: true},
-	"math.Trunc":                  {Fresh: true},
+	"fmt.Sprintf":                       {Fresh: true, Note: "formats; calls String() of arguments (module Stringers are themselves checked)"},
+	"fmt.Sprint":                        {Fresh: true},
+	"fmt.Errorf":                        {Fresh: true},
+	"errors.New":                        {Fresh: true},
+	"strings.Split":                     {Fresh: true},
+	"strings.Join":                      {Fresh: true},
+	"(*strings.Builder).WriteString":    {WritesParams: []int{0}},
+	"(*strings.Builder).String":         {Fresh: true},
+	"(*bytes.Buffer).String":            {Fresh: true},
+	"(*bytes.Buffer).WriteString":       {WritesParams: []int{0}},
+	"strconv.FormatFloat":               {Fresh: true},
+	"math.Pow":                          {Fresh: true},
+	"math.Min":                          {Fresh: true},
+	"math.Max":                          {Fresh: true},
+	"math.Round":                        {Fresh: true},
+	"math.Floor":                        {Fresh: true},
+	"math.Ceil":                         {Fresh: true},
+	"math.Trunc":                        {Fresh: true},
 	"github.com/goark/errs.Wrap":        {Fresh: true, Note: "allocates a new *errs.Error; does not modify the wrapped error"},
 	"github.com/goark/errs.New":         {Fresh: true},
 	"github.com/goark/errs.Is":          {Fresh: true},
